@@ -185,3 +185,18 @@ def nontrivial(o):
     if c["kind"] == "enc":
         return bool(c["vocab"]) and bool(c["tags"])
     return bool(o["out"].get("eq")) or c["x"][0] == c["y"][0]
+
+
+MANIFEST = {
+    "text": ("Encoding.tla states Encode / Decode / Classify (first hit) / Multilabel / prediction vectors (with repeats any of "
+             "that tag's scores) over a universe of tags whose terms share a name or a label, and the hash contract (equal => "
+             "equal hash, set / dict membership); MC_Encoding.tla runs SimpleEncoder's dictionary and the three loops as a state "
+             "machine and TLC proves Impl => Req, the round-trip and out-of-vocabulary laws and soundness of the hashed "
+             "projections for every vocabulary of <= 3 tags x list of <= 3 tags and every object pair (controls with keys / "
+             "hashes that look at part of a term are refuted by TLC); every case is executed on the real encoders and on "
+             "==, hash(), set and dict operations of the eight hashable classes, plus random vocabularies of <= 8 of 12 tags "
+             "with lists of <= 8, and TLC validates the observations clause by clause."),
+    "note": ("trusted: TLC, binder checks/c19.py (encoder; objects rebuilt for every use so identity cannot help); the hash "
+             "clause is the contract, not the projection: different but sound hashes pass (mutants/C19/must_pass)"),
+    "design_ref": "DESIGN.md section 4 C19",
+}
